@@ -19,7 +19,7 @@
 From RM Require Import Model.Sections Model.SectionsSpec.
 From RM Require Import Proofs.FloatCmp Proofs.NumFacts Proofs.FloatGrammar Proofs.SectionsFacts Proofs.RangeReal.
 From RM Require Import Proofs.DecimalRounding.
-From RM Require Import Model.Decoders Proofs.BreakOrder.
+From RM Require Import Model.Decoders Proofs.BreakOrder Proofs.BookmarkLimits.
 From RM Require Import Gen.Generated.
 From Flocq Require Import BinarySingleNaN.
 From Flocq Require Zaux Raux Generic_fmt FLT Round_NE.
@@ -262,7 +262,7 @@ Theorem C11_pn_i32_accepts_iff :
 Proof. exact pn_i32_spec. Qed.
 Print Assumptions C11_pn_i32_accepts_iff.
 
-(* u8 / raw i32 (colour components, bookmarks): literal within the type's range *)
+(* u8 / raw i32 (colour components; the plain integer grammar under ParseNumber): literal within the type's range *)
 Theorem C11_parse_int_raw_accepts_iff :
   forall signed lo hi s n, parse_int_raw signed lo hi s = Some n <-> int_literal signed s n /\ lo <= n <= hi.
 Proof. exact parse_int_raw_spec. Qed.
@@ -329,10 +329,39 @@ Theorem C11_f32_limit_refuted :
 Proof. exact pn_f32_above_limit_witness. Qed.
 Print Assumptions C11_f32_limit_refuted.
 
-(* Bookmarks do not go through ParseNumber (finding D10) *)
-Theorem C11_bookmarks_limit_refuted :
-  exists line n, In n (ed_bookmarks (fst (parse_editor editor_default line))) /\ n < - max_parse_value.
-Proof. exact bookmarks_limit_refuted. Qed.
+(* Bookmarks are numbers of the format like any other (D10 repaired: the elements
+   used to go through plain str::parse::<i32> -- no trimming, no limit).  A Bookmarks
+   value yields one number per comma-separated element whose TRIMMED text is an integer
+   literal within +-(2^31-1), in order; padded elements count; junk, empty elements and
+   +-2^31 are skipped ... *)
+Theorem C11_bookmarks_conversion :
+  forall v, c_int_list v = Some (KeyValue.filter_map pn_i32 (split_on comma v)).
+Proof. reflexivity. Qed.
+Theorem C11_bookmarks_elements :
+  forall v n, In n (parse_bookmarks v) <->
+    exists piece, In piece (split_on comma v) /\ int_literal true (trim piece) n /\
+                  - max_parse_value <= n <= max_parse_value.
+Proof. exact parse_bookmarks_elements. Qed.
+Print Assumptions C11_bookmarks_elements.
+(* ... so every stored bookmark lies within +-(2^31-1): after every run of the
+   [Editor] parser, in every decoded Editor value and in every decoded Beatmap (any
+   file, no hypothesis on the lines; any curve-distance function) *)
+Theorem C11_bookmarks_within_limits :
+  forall lines,
+    Forall (fun n => - max_parse_value <= n <= max_parse_value)
+           (ed_bookmarks (run_lines parse_editor editor_default lines)).
+Proof. exact (fun lines => editor_run_bookmarks lines editor_default (Forall_nil _)). Qed.
+Print Assumptions C11_bookmarks_within_limits.
+Theorem C11_decoded_editor_bookmarks :
+  forall lines,
+    Forall (fun n => - max_parse_value <= n <= max_parse_value) (ed_bookmarks (decode_editor lines)).
+Proof. exact decoded_editor_bookmarks. Qed.
+Print Assumptions C11_decoded_editor_bookmarks.
+Theorem C11_decoded_beatmap_bookmarks :
+  forall dist lines bv, decode_beatmap dist lines = Done bv ->
+    Forall (fun n => - max_parse_value <= n <= max_parse_value) (ed_bookmarks (bmv_editor bv)).
+Proof. exact decoded_beatmap_bookmarks. Qed.
+Print Assumptions C11_decoded_beatmap_bookmarks.
 
 (* ====================================================================== *)
 (* T11d: number conversion is correctly rounded                            *)
@@ -676,6 +705,14 @@ Example ex_general :
             "Unknown: 5"; "PreviewTime: 2147483648"; "PreviewTime:  -2147483647 "; "AudioFilename: a\b.mp3"]
   = [7; 97; 47; 98; 46; 109; 112; 51; 0; -2147483647; 0; 100; 1060320051; 3; 0; 0; 0; 1; 0; 1; 0].
 Proof. vm_compute. reflexivity. Qed.
+(* bookmarks: padded elements are read, -2^31 is beyond the limit, junk and empty
+   elements are skipped (formerly finding D10: ` 2 ` was dropped and -2147483648 stored) *)
+Example ex_bookmarks :
+  run_dump parse_editor dump_editor editor_default ["Bookmarks: 1, 2 ,-2147483648,2147483647,x,,3"]
+  = run_dump parse_editor dump_editor (set_ed_bookmarks editor_default [1; 2; 2147483647; 3]) [] /\
+  firstn 5 (run_dump parse_editor dump_editor editor_default ["Bookmarks: 1, 2 ,-2147483648,2147483647,x,,3"])
+  = [4; 1; 2; 2147483647; 3].
+Proof. vm_compute. split; reflexivity. Qed.
 (* more than one colon: everything after the first one is the value *)
 Example ex_title_re_zero :
   run_dump parse_metadata dump_metadata metadata_default ["Title:Re:Zero"]
